@@ -51,7 +51,7 @@ def trajectories(sc, real):
 def make_base(seed):
     r = np.random.RandomState(seed)
     sc = scen.gen(seed, rev=False, continuous=False, kills=False, nsteps=int(r.randint(4, 9)), period=int(r.choice([1, 2])),
-                  numrec=int(r.choice([0, 2])), speed=float(r.choice([0.25, 1.0])))
+                  numrec=int(r.choice([0, 2])), speed=float(r.choice([0.25, 1.0])), subgrid=("none" if seed % 5 == 2 else None))
     for i, row in enumerate(sc["rows"]):
         row["key"] = i
     total = sum(x["mult"] for x in sc["rows"])
@@ -61,6 +61,25 @@ def make_base(seed):
         st = int(r.randint(0, sc["nsteps"] - 1))
         kill.setdefault(str(st), []).append(int(r.randint(0, max(1, total - 1))))
     sc["kill"] = kill
+    if seed % 5 == 2:
+        # the western half is exactly at rest in the frames up to the start and flows later: a particle released there
+        # starts with zero velocity while the field under it changes in time; scheme with intermediate stages
+        U, V = np.array(sc["U"]), np.array(sc["V"])
+        half = sc["imax"] // 2
+        first = [m for m, f in enumerate(sc["fsteps"]) if f <= 0]
+        for m in first:
+            U[m][:, :, : half + 1] = 0.0
+            V[m][:, :, : half + 1] = 0.0
+        sc["U"], sc["V"] = U.tolist(), V.tolist()
+        sc["scheme"] = ["RK2", "RK4"][seed % 2]
+        sc["kill"] = {}
+        r0 = dict(sc["rows"][0])
+        west = dict(r0, step=0, mult=1, X=2.5, Y=float(sc["jmax"] // 2) + 0.25, Z=1.0, key=0)
+        east = dict(r0, step=0, mult=1, X=float(sc["imax"] - 3) + 0.5, Y=float(sc["jmax"] // 2) - 0.25, Z=1.0, key=1)
+        rest = [dict(row, key=2 + i) for i, row in enumerate(sc["rows"]) if row["step"] > 0]
+        sc["rows"] = [west, east] + rest
+        sc["mask"] = np.ones_like(np.array(sc["mask"])).tolist()
+        sc["_rest"] = True
     return sc
 
 
@@ -68,7 +87,9 @@ def variant(sc, kind, r):
     v = copy.deepcopy(sc)
     pm = pid_map(sc)
     killed_keys = {st: [pm[p] for p in pids if p < len(pm)] for st, pids in sc["kill"].items()}
-    if kind == "drop":
+    if kind == "drop" and sc.get("_rest"):
+        v["rows"] = v["rows"][:1]          # the particle in the resting water, alone
+    elif kind == "drop":
         keep = [row for row in v["rows"] if row["step"] == 0 and row["key"] == v["rows"][0]["key"] or r.rand() < 0.6]
         v["rows"] = keep or v["rows"][:1]
     elif kind == "drop_first":
@@ -159,7 +180,7 @@ def run(ctx: Ctx):
     for b in range(nbase):
         base = make_base(ctx.seed * 100000 + 7000 + b)
         jobs.append(base); meta.append((b, "base"))
-        for kind in (kinds if ctx.thorough else [kinds[(b + i) % len(kinds)] for i in range(3)]):
+        for kind in (kinds if ctx.thorough else (["drop", "permute", "repeat"] if base.get("_rest") else [kinds[(b + i) % len(kinds)] for i in range(3)])):
             jobs.append(variant(base, kind, r)); meta.append((b, kind))
     res = pmap(run_one, jobs)
     bases = {}
